@@ -196,3 +196,33 @@ Definition rapply_pinned (mfm ro : bool) (S : rstate) (o : rop) : rstate :=
       if mfm then MkRs (rs_stack S) (map_last (pollute mid mh) (rs_files S)) (rs_writable S) else S
   | None, _ => S
   end.
+
+(** ** The walk of the code: pre-order, attributes of a node before its children
+
+    [merge_files] copies the root attributes, then every top-level entity with
+    [h5_copy_from_to]: the node, its attributes, then its descendants in the order of
+    [visititems] (pre-order, names ascending), each followed by its attributes.  This is the
+    ascending order of the root-first paths, compared segment by segment, attribute segments
+    before child segments, names by character code.  [pkey] flattens a path into one list of
+    numbers whose plain lexicographic order [lexb] is that order: per segment a marker (1 =
+    attribute, 2 = child), the character codes shifted by 3, and the terminator 0 (smaller than
+    every character, so a name sorts before its extensions: "run1" before "run10"). *)
+Definition enc_seg (s : seg) : list nat :=
+  (if s.1 then 1 else 2) :: map (λ c, 3 + Ascii.nat_of_ascii c) (String.list_ascii_of_string s.2) ++ [0].
+
+Definition pkey (p : path) : list nat := flat_map enc_seg (reverse p).
+
+Fixpoint lexb (a b : list nat) : bool :=
+  match a, b with
+  | [], _ => true
+  | _ :: _, [] => false
+  | x :: a', y :: b' => if x <? y then true else if y <? x then false else lexb a' b'
+  end.
+
+Definition pre_le (a b : path * tentry) : Prop := lexb (pkey a.1) (pkey b.1) = true.
+Global Instance pre_le_dec a b : Decision (pre_le a b).
+Proof. unfold pre_le. apply _. Defined.
+
+Definition preorder (T : tree) : list (path * tentry) := merge_sort pre_le (map_to_list T).
+
+Definition m_merge_preorder (R : stack) : option stack := build (preorder (viewmap R)).
